@@ -23,10 +23,16 @@
     enough for the ShortReadKmerFinder bypass; the aligner's character comparison implies the k-mer
     finder's for all ASCII pairs and flag sets (by computation).
 
-    Modelled, not verified: the shift-and bit machinery below "windowed multi-pattern occurrence"
-    (tied by the kmers_present correspondence). *)
+    The shift-and bit machinery below "windowed multi-pattern occurrence" is modelled as well (Model/ShiftAnd.v:
+    packing of the k-mers of an entry into 64-bit words, init / found / per-character masks, the shift-or-and
+    step with its 64-bit truncation) and proved to compute exactly that occurrence predicate
+    (C07_shift_and_correct, C07_packed_search_correct, C07_kmers_present_bit_level at the end of this file).
+    Both levels of the model are compared with the compiled finder on the same cases (kmers_present
+    correspondence); k-mers longer than 64 characters or empty ones are outside the model (the code refuses
+    the former, the heuristic never builds the latter for rates below 1), as is the read past the end of the
+    buffer for windows that end behind the read (F7c in DESIGN 7). *)
 From Coq Require Import ZArith List Bool.
-From CV Require Import Model.Align Model.Adapters Model.Kmer Proofs.AdapterProofs Proofs.KmerProofs Proofs.KmerComplete Proofs.KmerOverlap.
+From CV Require Import Model.Align Model.Adapters Model.Kmer Proofs.AdapterProofs Proofs.KmerProofs Proofs.KmerComplete Proofs.KmerOverlap Model.ShiftAnd Proofs.ShiftAndProofs.
 From CV Require Import Generated.Scores.
 Import ListNotations.
 Open Scope Z_scope.
@@ -115,3 +121,38 @@ Example C07_F7a_now_passes :
   = match_to (thr_of [0;0;0;0;0;1;1;1]) f7a_ad [67;71;84;71;67;71;71;65;84;65;84]
   /\ match_to (thr_of [0;0;0;0;0;1;1;1]) f7a_ad [67;71;84;71;67;71;71;65;84;65;84] <> None.
 Proof. vm_compute. split; [reflexivity | discriminate]. Qed.
+
+(** ---- below the level of Model/Kmer.v: the shift-and search of _kmer_finder.pyx (Model/ShiftAnd.v, Proofs/ShiftAndProofs.v).
+    The k-mers of an entry are packed into 64-bit words; the bit-parallel search of one word answers whether one of
+    its k-mers occurs in the text -- the very predicate [occurs] that [kmers_present] of the model uses.  So the
+    abstraction "some k-mer of the entry occurs in the window" is not an assumption about the C loop but a theorem
+    about its model (the model of the loop itself is tied to the code through the kmers_present correspondence). *)
+Theorem C07_shift_and_correct : forall (cmatch : Z -> Z -> bool) (t : list Z) (ws : list (list Z)),
+  nonempty ws -> total ws <= WORD ->
+  shift_and_present cmatch ws t = existsb (fun w => occurs cmatch w t) ws.
+Proof. exact shift_and_correct. Qed.
+Print Assumptions C07_shift_and_correct.
+
+Theorem C07_packed_search_correct : forall (cmatch : Z -> Z -> bool) (ks : list (list Z)) (t : list Z),
+  Forall (fun k => 1 <= zlen k <= WORD) ks ->
+  existsb (fun g => shift_and_present cmatch g t) (pack ks) = existsb (fun k => occurs cmatch k t) ks.
+Proof. exact packed_search_correct. Qed.
+Print Assumptions C07_packed_search_correct.
+
+Theorem C07_kmers_present_bit_level : forall wref wq (entries : list (Z * option Z * list str)) (seq : str),
+  Forall (fun e : Z * option Z * list str => Forall (fun k => 1 <= zlen k <= WORD) (snd e)) entries ->
+  kmers_present_sa wref wq entries seq = kmers_present wref wq (flat_table entries) seq.
+Proof. exact kmers_present_sa_correct. Qed.
+Print Assumptions C07_kmers_present_bit_level.
+
+(** non-vacuity: the words ACG and TT in one machine word; TTACG contains ACG, TACCG contains neither; 70 one-letter
+    k-mers need two machine words *)
+Example C07_shift_and_instance :
+  nonempty [[65;67;71]; [84;84]] /\ total [[65;67;71]; [84;84]] <= WORD /\
+  shift_and_present eq_ascii [[65;67;71]; [84;84]] [84;65;65;67;71] = true /\
+  shift_and_present eq_ascii [[65;67;71]; [84;84]] [84;65;67;67;71] = false /\
+  length (pack (repeat [65] 70)) = 2%nat.
+Proof.
+  split; [repeat constructor; vm_compute; discriminate|]. split; [vm_compute; discriminate|].
+  split; [vm_compute; reflexivity|]. split; vm_compute; reflexivity.
+Qed.
